@@ -454,6 +454,8 @@ def rule_seek(ctx):
                     ctx.ob("C01.SEEK", w, f"{w.name}: with an offset the file is opened {sorted(want)} (is {mode_vals})", mode_vals is not None and set(mode_vals) <= want,
                            f"{w.name}: with a restart offset the file is opened {mode_vals}; only {sorted(want)} keeps the existing content and honours seek "
                            "(append mode ignores seek on real files, 'wb' truncates)", construct=f"seek:{w.name}:mode {mode_vals}")
+                    if not seeks and any(_is_offset_expr(p, x, h, w) for c_ in opens for x in list(c_.args) + [k.value for k in c_.keywords] if isinstance(x, (ast.Name, ast.Attribute))):
+                        raise Inconclusive(f"C01.SEEK: {w.name} hands the restart offset to the backend's open(); positioning happens outside the worker, a shape this rule does not follow")
                     good = len(seeks) == 1 and not after and len(seeks[0].args) == 1 and src(seeks[0].args[0]) == src(off_expr) \
                         and isinstance(p.parent.get(seeks[0]), ast.Await) and _is_file(p, seeks[0].func.value, w, opens)
                     ctx.ob("C01.SEEK", seeks[0] if seeks else w, f"{w.name}: seek(<the offset>) once, awaited, on the opened file, before the copy loop", good,
